@@ -35,6 +35,7 @@ const (
 	opClose
 	opAccept
 	opDial
+	opWait
 )
 
 func (k opKind) String() string {
@@ -51,6 +52,8 @@ func (k opKind) String() string {
 		return "accept"
 	case opDial:
 		return "dial"
+	case opWait:
+		return "wait"
 	}
 	return "?"
 }
@@ -62,6 +65,8 @@ type parkRec struct {
 	conn    *SimConn
 	lis     *Listener
 	task    *Task
+	waitVar *int
+	waitVal int
 	n       int // length of the caller's buffer
 	done    int // bytes already accepted (write)
 	fault   int // injected fault kind for this op (0 = none)
@@ -81,7 +86,7 @@ type parkRec struct {
 //go:norace
 func (r *parkRec) key() (int, int, int) {
 	switch r.kind {
-	case opYield:
+	case opYield, opWait:
 		return 0, r.task.ID, 0
 	case opAccept:
 		return 1, r.lis.id, 0
@@ -317,9 +322,12 @@ type OpRec struct {
 	Err     string `json:"err,omitempty"` // error class
 	ErrText string `json:"err_text,omitempty"`
 	N       int    `json:"n,omitempty"`
+	N2      int    `json:"n2,omitempty"`
 	MsgType int    `json:"mt,omitempty"`
+	PayLen  int    `json:"pay_len,omitempty"` // payload length of the whole message the op belongs to
 	Data    []byte `json:"-"`
 	Note    string `json:"note,omitempty"`
+	Teardown bool  `json:"teardown,omitempty"` // the call returned while the run was being torn down
 	errVal  error
 }
 
@@ -417,6 +425,7 @@ func (t *Task) Begin(op string, idx int) *OpRec {
 func (t *Task) End(r *OpRec, err error) {
 	r.Return = t.sim.Step()
 	r.TReturn = int64(t.sim.Now())
+	r.Teardown = t.sim.isTearing()
 	r.errVal = err
 	r.Err = classify(err)
 	if err != nil {
@@ -576,6 +585,9 @@ func (s *Sim) Teardown() int {
 	s.quiesce()
 	return s.liveTasks()
 }
+
+//go:norace
+func (s *Sim) isTearing() bool { return s.tearing }
 
 //go:norace
 func (s *Sim) setTearing() {
